@@ -300,6 +300,10 @@ def _rotate_walrus_test(st):
     return (list(assigns), loop, [])
 
 
+def last_only_names(st, n):
+    return ()
+
+
 def _walk_same_loop(node):
     """nodes of a statement that belong to the same loop level (nested loops and functions are not entered)"""
     yield node
@@ -875,6 +879,7 @@ class Interp:
             # a local the body changed although no statement of the body assigns it (a callee reached through a table or a
             # closure stored into the caller's array): it is loop-carried all the same
             moved = {n_ for n_ in env0 if n_ not in assigned and n_ in fr.env and fr.env[n_].key != env0[n_].key}
+            env_after1 = dict(fr.env)
         finally:
             self._assign_trackers.pop()
             self.record = rec
@@ -886,6 +891,36 @@ class Interp:
             return self._loop(st, fr, kind, it=it)
         inv1 = {n: self._invariant_guard(track1.get(n), lid, written) for n in elig}
         inv1 = {n: g for n, g in inv1.items() if g is not None and g.key != TRUE.key}
+        # induction variables: a carried local advanced once per iteration, unconditionally, by a loop-invariant amount c
+        # (x = x + c / x += c at the top level of the body) has the value x0 + i*c at the top of iteration i
+        induction = {}
+        if kind == 'for' and 'index' in info and id(st) not in self._plain_loops and \
+                not any(isinstance(n_, (ast.Break, ast.Continue, ast.Return)) for b in st.body for n_ in _walk_same_loop(b)):
+            wk = {k_ for k_ in written}
+            for n in assigned:
+                if n not in env0 or n in inv1 or n in last_only_names(st, n) or n not in env_after1:
+                    continue
+                tops = [b for b in st.body if any(isinstance(x_, ast.Name) and x_.id == n and isinstance(x_.ctx, ast.Store)
+                                                   for x_ in ast.walk(b))]
+                if len(tops) != 1 or not isinstance(tops[0], (ast.Assign, ast.AugAssign)):
+                    continue
+                t0 = tops[0]
+                tgt_ok = (isinstance(t0, ast.AugAssign) and isinstance(t0.target, ast.Name) and isinstance(t0.op, (ast.Add, ast.Sub))) or \
+                         (isinstance(t0, ast.Assign) and len(t0.targets) == 1 and isinstance(t0.targets[0], ast.Name))
+                if not tgt_ok:
+                    continue
+                lv = Term.of(Atom('loopvar', canon.get(n, n), lid))
+                c_ = env_after1[n] - lv
+                bad_ = False
+                for a_ in T.all_atoms(c_).values():
+                    if a_.kind in ('loopvar', 'idx', 'elem', 'key', 'after') and lid in a_.args:
+                        bad_ = True
+                    if a_.kind == 'attr' and (a_.args[0].key, a_.args[1]) in wk:
+                        bad_ = True
+                if bad_ or c_.is_zero() or not T._numeric_like(c_):
+                    continue
+                induction[n] = c_
+        info['induction'] = induction
         # a name re-bound only in the LAST iteration (every re-binding is under `index == trip - 1`) has its entry value
         # at the top of every iteration
         last_only = set()
@@ -909,6 +944,8 @@ class Interp:
                 fr.env[n] = T.mk_ite(inv1[n], fr.env[n], env0[n])
             if n in last_only:
                 fr.env[n] = env0[n]
+            if n in induction and n not in last_only:
+                fr.env[n] = env0[n] + info['index'] * induction[n]
         for k in written:
             self.heap[k] = Term.of(Atom('loopvar', k[0] + '.' + k[1], lid))
         if kind == 'for':
@@ -948,6 +985,15 @@ class Interp:
                     fr.env, self.heap = dict(env0), dict(heap0)
                     self._loop_id -= 1
                     return self._loop(st, fr, kind, it=it)
+        for n, c_ in induction.items():
+            got = fr.env.get(n)
+            if got is None or not (got - (env0[n] + (info['index'] + 1) * c_)).is_zero():
+                # the recorded pass does not advance it by c after all: analyse the loop without induction variables
+                self._plain_loops.add(id(st))
+                del self.events[nev:]
+                fr.env, self.heap = dict(env0), dict(heap0)
+                self._loop_id -= 1
+                return self._loop(st, fr, kind, it=it)
         info['env_exit'] = dict(fr.env)
         info['heap_exit'] = dict(self.heap)
         # after the loop
@@ -955,6 +1001,8 @@ class Interp:
         fr.env, self.heap = dict(env0), dict(heap0)
         for n in assigned:
             acc = self._accumulator(st, n, info, env0.get(n), fr) if kind == 'for' else None
+            if n in induction and 'trip' in info:
+                acc = env0[n] + induction[n] * info['trip']
             fr.env[n] = acc if acc is not None else Term.of(Atom('after', canon.get(n, n), lid))
             if n in inv1 and n in env0:
                 fr.env[n] = T.mk_ite(inv1[n], fr.env[n], env0[n])
